@@ -56,17 +56,8 @@ OPS_KINDS = list(corpus_ops.ORDER)
 # reports a VIOLATION on them that has not been triaged by the lead yet (see the comment of each entry).  The builders
 # stay available: f_single(rng, seed, kind) and draw(..., families=[...]) with an explicit name still produce them.
 PENDING_TRIAGE = [
-    # The defects the operator-coverage kinds were parked for (concat_act, conv_groups*, nn_ac_x*, rb_ac_x2_h1, lstm*, log_i16,
-    # sqrt_i16, log_u8, softmax_r4, tconv_s1_valid, pad_r3, pad_hw_channel, sslice_newaxis*, memonly:unpack_pack; reproductions
-    # harness/repro/ of the operator-coverage work) are repaired in /repo: every corpus-using check is green with them
-    # (seeds 0 and 1), they are part of the default corpus again.  Still parked:
-    # --- C11 SameInterface on the (now compiling) NPU-placed ARG_MAX; reproduction /var/tmp/corpus-shapes/repro_1.py
-    "argmax", "argmax_u8_i64", "argmax_i64", "argmax_c127", "argmax_r2", "argmax_r3", "argmax_tail",
-                             # shapes repro_1: the model OUTPUT tensor of an NPU-placed ARG_MAX gains a trailing dimension of 1
-                             #                 ([1,H,W] -> [1,H,W,1], [N] -> [N,1]) in the compiled model; all other checks are green
-    # --- graph-shape families (corpus_shapes.py); reproductions: /var/tmp/corpus-shapes/repro_<n>.py
-    "io_alias:const_out",    # shapes repro_2: a constant tensor that is also a model output is dropped from the output list of the
-                             #                 compiled model (C11 SameInterface)
+    # Every defect a kind / style was parked for has been repaired in /repo (DESIGN.md section 7: P1-P23, R1, R2); each kind left
+    # this list after every corpus-using check was green with it.  Currently nothing is parked.
 ]
 corpus_ops.PENDING.update(k for k in PENDING_TRIAGE if ":" in k)
 corpus_shapes.PENDING.update(k for k in PENDING_TRIAGE if ":" in k)
